@@ -68,4 +68,20 @@ func T6(c C) E
 func T7(d D, e E) (F, error)
 func S1(c C)
 
+// predicates and extra tasks
+func P1(a A) bool
+func P2(ctx context.Context, b B) bool
+func T8(b B) (D, error)
+
+// parallel tasks
+func R1() error
+func R2(ctx context.Context) error
+func R3()
+func R4(ctx context.Context)
+func X1(i int, a A) error
+func X2(a A)
+func X3(ctx context.Context, i int, a A) error
+func XE() error
+func XE2(ctx context.Context)
+
 // END-USERFNS
